@@ -18,6 +18,8 @@
   text and the per-position character classes are re-extracted on every run), pongo2 beyond the fragment
   text | `{{ name }}` | `{% include "f" %}` | `{% extends "f" %}` | top-level `{% block %}` (`lexTemplate` / `scan`
   answer `none` = "outside the modelled fragment"). The per-base-path template cache IS modelled (`Svc`, `step`, `run`).
+  Substitution is configurable (`Cfg`): `codeCfg` = the code as it is (apricot/local switches pongo2's autoescaping
+  off), `legacyCfg` = the code as it was (every substituted value HTML-escaped; finding `autoescape_html`, repaired).
   Core Lean only.
 -/
 import ControlModel.Basic
@@ -417,7 +419,7 @@ def lex : Mode → Str → Option (List Seg)
 
 def lexTemplate (content : Str) : Option (List Seg) := lex .text content
 
-/-- pongo2's `escape` filter, applied to every string value under the default autoescape. -/
+/-- pongo2's `escape` filter: what autoescaping applies to every string value a template prints. -/
 def escapeChar (c : Char) : Str :=
   if c == '&' then ['&', 'a', 'm', 'p', ';']
   else if c == '>' then ['&', 'g', 't', ';']
@@ -427,6 +429,31 @@ def escapeChar (c : Char) : Str :=
   else [c]
 
 def escape (s : Str) : Str := s.flatMap escapeChar
+
+/-- How the service hands a value to the payload. pongo2 takes `ExecutionContext.Autoescape` from a process-wide
+    switch (`pongo2.SetAutoescape`, initially on) every time a template is executed. -/
+structure Cfg where
+  /-- the switch is on when templates are executed -/
+  autoescape : Bool
+  deriving Repr, DecidableEq
+
+/-- THE CODE AS IT IS: package apricot/local switches autoescaping off in its `init()` (tied to the linked code by
+    `C20_substitution_is_code`). -/
+def codeCfg : Cfg := ⟨false⟩
+
+/-- the code as it was before that repair (pongo2's default; finding `autoescape_html`) -/
+def legacyCfg : Cfg := ⟨true⟩
+
+/-- what `{{ name }}` writes for the value bound to `name` -/
+def Cfg.subst (c : Cfg) (v : Str) : Str := if c.autoescape then escape v else v
+
+/-- the characters `escape` rewrites -/
+def escapedChars : Str := ['&', '<', '>', '"', '\'']
+
+/-- who touches pongo2's process-wide autoescape switch, in the whole repository: `init()` of apricot/local, with the
+    literal `false` (package directory, enclosing function, argument) -/
+def autoescapeSwitches : List (Str × Str × Str) :=
+  [(['a', 'p', 'r', 'i', 'c', 'o', 't', '/', 'l', 'o', 'c', 'a', 'l'], ['i', 'n', 'i', 't'], ['f', 'a', 'l', 's', 'e'])]
 
 /-- value bound to a name; an unbound name renders as "". -/
 def lookup (vars : List (Str × Str)) (n : Str) : Str :=
@@ -446,9 +473,12 @@ def bindings (vars : List (Str × Str)) : List (Str × Str) := vars.map fun kv =
 /-- pongo2 `reIdentifiers` `^[a-zA-Z0-9_]+$` on every context key -/
 def validIdent (k : Str) : Bool := !k.isEmpty && k.all isIdentChar
 
-/-- What the CODE does with a template in the fragment: substitute the HTML-escaped value. -/
-def render (content : Str) (vars : List (Str × Str)) : Option Str :=
-  (lexTemplate content).map (renderSegs (fun n => escape (lookup (bindings vars) n)))
+/-- What the code does with a template in the fragment under configuration `c`. -/
+def renderWith (c : Cfg) (content : Str) (vars : List (Str × Str)) : Option Str :=
+  (lexTemplate content).map (renderSegs (fun n => c.subst (lookup (bindings vars) n)))
+
+/-- What the CODE AS IT IS does with a template in the fragment. -/
+def render (content : Str) (vars : List (Str × Str)) : Option Str := renderWith codeCfg content vars
 
 /-- What the PROPERTY asks for: substitute the supplied value itself. -/
 def renderVerbatim (content : Str) (vars : List (Str × Str)) : Option Str :=
@@ -457,7 +487,7 @@ def renderVerbatim (content : Str) (vars : List (Str × Str)) : Option Str :=
 /-- `Service.GetAndProcessComponentConfiguration(q, vars)` on a fresh service over the YAML backend:
     the template loader re-parses the printed path (`NewQuery(q.Path())`), fetches that entry with
     `GetComponentConfiguration`, pongo2 parses it, the context keys are checked, the template is executed. -/
-def processComponent (t : List Leaf) (q : Query) (vars : List (Str × Str)) : Payload :=
+def processComponentWith (c : Cfg) (t : List Leaf) (q : Query) (vars : List (Str × Str)) : Payload :=
   match parse (print q) with
   | none => .err "load"
   | some q' =>
@@ -467,9 +497,13 @@ def processComponent (t : List Leaf) (q : Query) (vars : List (Str × Str)) : Pa
       | none => .unmodelled
       | some segs =>
         if (bindings vars).all (fun kv => validIdent kv.1) then
-          .ok (renderSegs (fun n => escape (lookup (bindings vars) n)) segs)
+          .ok (renderSegs (fun n => c.subst (lookup (bindings vars) n)) segs)
         else .err "badident"
     | _ => .err "load"
+
+/-- …by the code as it is -/
+def processComponent (t : List Leaf) (q : Query) (vars : List (Str × Str)) : Payload :=
+  processComponentWith codeCfg t q vars
 
 
 /-! ## templates with include / extends / block (pongo2 tags_include.go, tags_extends.go, tags_block.go)
@@ -483,7 +517,7 @@ def processComponent (t : List Leaf) (q : Query) (vars : List (Str × Str)) : Pa
   compiled template is a closed object: loading = parse + link. Block overriding along an `extends` chain is static
   too (`getBlockWrappers`: the most derived definition wins; blocks unknown to the root ancestor are dropped; only the
   root ancestor's document is executed), and an included template is executed with the includer's context (Public ∪
-  Private) under the same autoescape setting. Hence a compiled template is modelled as the FLAT list of `Seg`s it
+  Private) under the same autoescape setting (`NewChildExecutionContext` copies it). Hence a compiled template is modelled as the FLAT list of `Seg`s it
   executes. -/
 
 /-- `ConsulTemplateLoader.Abs(_, name)`: the including template's own name is ignored, only the set's base path counts. -/
@@ -795,11 +829,15 @@ def linkPath : Nat → List Leaf → Str → Str → LinkRes (List RNode)
 def compileP (t : List Leaf) (path : Str) : LinkRes (List Seg) :=
   (linkPath (t.length + 1) t (basePathOf path) path).map flatten
 
-/-- `tpl.Execute(bindings)`: context-key check, then substitution of the HTML-escaped values -/
-def execT (segs : List Seg) (vars : List (Str × Str)) : Payload :=
+/-- `tpl.Execute(bindings)` under configuration `c`: context-key check, then substitution of the values -/
+def execWith (c : Cfg) (segs : List Seg) (vars : List (Str × Str)) : Payload :=
   if (bindings vars).all (fun kv => validIdent kv.1) then
-    .ok (renderSegs (fun n => escape (lookup (bindings vars) n)) segs)
+    .ok (renderSegs (fun n => c.subst (lookup (bindings vars) n)) segs)
   else .err "badident"
+
+/-- `tpl.Execute(bindings)` in the code as it is (everything below — one service, many requests; requests in flight
+    together — is the code as it is) -/
+def execT (segs : List Seg) (vars : List (Str × Str)) : Payload := execWith codeCfg segs vars
 
 /-! ## one service, many requests (apricot/local/service.go: `templateSets`, `templateSetForBasePath`,
        `InvalidateComponentTemplateCache`; pongo2 `TemplateSet.FromCache`)
